@@ -387,17 +387,34 @@ Section Model.
     | (mg, ty, len) :: r => if str_eqb (takeN len head) mg then Some ty else detect_magic r head
     end.
 
-  (* header = first 512 bytes of the file *)
+  (* header = first 512 bytes of the file.  Repaired (fixes/C10-tar-magic-order.patch): a block that tarfile
+     accepts as a member header (valid checksum; oracle tar_block_ok) wins over the leading-bytes signatures;
+     the bare ustar magic at offset 257 remains the last resort. *)
+  Definition ustar_in (head : bytes) : bool :=
+    (tar_magic_offset T + 5 <=? lenN head)
+    && str_eqb (takeN 5 (dropN (tar_magic_offset T) head)) (tar_magic T).
+
+  Variable tar_block_ok : bytes -> bool.      (* tarfile.TarInfo.frombuf(head) does not raise HeaderError *)
+
   Definition detect (file : bytes) : option str :=
+    let head := takeN 512 file in
+    match head with
+    | [] => None
+    | _ => if ustar_in head && tar_block_ok head then Some (s "tar")
+           else match detect_magic (magic T) head with
+                | Some ty => Some ty
+                | None => if ustar_in head then Some (s "tar") else None
+                end
+    end.
+
+  (* the original order: signatures first, ustar last *)
+  Definition detect_old (file : bytes) : option str :=
     let head := takeN 512 file in
     match head with
     | [] => None
     | _ => match detect_magic (magic T) head with
            | Some ty => Some ty
-           | None =>
-               if (tar_magic_offset T + 5 <=? lenN head)
-                  && str_eqb (takeN 5 (dropN (tar_magic_offset T) head)) (tar_magic T)
-               then Some (s "tar") else None
+           | None => if ustar_in head then Some (s "tar") else None
            end
     end.
 
